@@ -1,15 +1,15 @@
-SPECIFICATION FairSpec
+SPECIFICATION Spec
 CONSTANTS
   SettingsSpace <- TinySpace
-  LossKinds = {"eof", "reset"}
+  LossKinds = {"reset", "eof"}
   LoginModes = {"ok", "rejected"}
-  BgKinds = {"pparent"}
+  BgKinds = {"stimer"}
   MaxBg = 1
-  MaxLosses = 2
+  MaxLosses = 1
   MaxLogins = 1
-  SlowScan = {FALSE}
-  Env = {"exec", "peerin", "userdisc", "midburst"}
-  MaxConnFail = 1
+  SlowScan = {TRUE}
+  Env = {"midburst", "userdisc"}
+  MaxConnFail = 0
   FixAutoJoin = TRUE
   FixDistStopped = TRUE
   FixWatchdogStopped = TRUE
@@ -30,5 +30,4 @@ INVARIANT ReconnectArmed
 INVARIANT ReconnectOnlyIf
 INVARIANT StopIsFinal
 PROPERTY ReconnectStep
-PROPERTY ReconnectHappens
 CHECK_DEADLOCK FALSE
